@@ -111,7 +111,7 @@ func fillUp(path string) int {
 	}
 }
 
-const enospcRule = "WAL directory on a 64 KiB tmpfs: 1-5 acknowledged batches (or 255 prune-carrying flushes: the next one triggers the cleanup), then a filler file takes every free page " +
+const enospcRule = "WAL directory on a 64 KiB tmpfs: acknowledged batches until the log ends 0-400 bytes before a 4 KiB page boundary (or 255 prune-carrying flushes: the next one triggers the cleanup; optionally close+reopen so that a new log file is needed), then a filler file takes every free page " +
 	"(optionally minus one), then 1-3 flushes of 1-8 records each of which may fail with a genuine ENOSPC (in the log append, possibly after a partial write, or in the watermark temp write); " +
 	"after each failure the live view and an as-is crash image are checked (batch absent or complete, never partial); then the filler is removed and append+flush must succeed, " +
 	"followed by as-is image and clean reopen; non-trivial = at least one Flush really failed"
@@ -130,7 +130,7 @@ func TestPropEnospc(t *testing.T) {
 	defer unmountTiny(mnt)
 	t.Cleanup(func() { unmountTiny(mnt) })
 
-	stats.Check(t, stats.Budget{Quick: 12, Thorough: 250}, enospcRule,
+	stats.Check(t, stats.Budget{Quick: 40, Thorough: 400}, enospcRule,
 		func(rt *rapid.T, c *stats.Case) {
 			c.Label("enospc_injection: available")
 			ents, _ := os.ReadDir(mnt)
@@ -156,15 +156,33 @@ func TestPropEnospc(t *testing.T) {
 				}
 				next = cleanupInterval
 			} else {
-				for i, nb := 0, rapid.IntRange(1, 5).Draw(rt, "nb"); i < nb; i++ {
-					for j, n := 0, rapid.IntRange(1, 4).Draw(rt, "n"); j < n; j++ {
+				// acknowledged batches until the log file ends within `slack` bytes of a 4 KiB page boundary
+				// (tmpfs allocates page-wise: the failing flush then writes the head of its batch into the
+				// allocated page and gets ENOSPC for the rest => a genuinely partial batch on disk)
+				slack := rapid.SampledFrom([]int{0, 20, 60, 150, 400, 4096}).Draw(rt, "slack")
+				logSize := func() int {
+					s := takeSnap(walDirOf(h.base))
+					return len(s.data[s.lastLog()])
+				}
+				for i := 0; i < 120; i++ {
+					sz := logSize()
+					if i > 0 && (slack == 4096 || 4096-sz%4096 <= slack) && i >= 1 {
+						break
+					}
+					for j, n := 0, rapid.IntRange(1, 3).Draw(rt, "n"); j < n; j++ {
 						h.append(mkEntry(rapid.IntRange(0, nEntryKinds-1).Draw(rt, "kind"), next+uint64(rapid.IntRange(0, 2).Draw(rt, "dh")), j, 1, uint64(i)))
 					}
-					if rapid.IntRange(0, 4).Draw(rt, "p") == 0 {
+					if rapid.IntRange(0, 9).Draw(rt, "p") == 0 {
 						h.prune(next)
 						next++
 					}
 					h.flush(false)
+				}
+				if rapid.IntRange(0, 3).Draw(rt, "reopenFirst") == 0 {
+					// the failing flush must then create a new log file
+					h.flush(true)
+					h.reopen()
+					c.Label("reopen-before-fill")
 				}
 			}
 
